@@ -635,10 +635,14 @@ def iterantijoin(left, right, lkey, rkey):
 
     # loop until *either* of the iterators is exhausted
     lkval, rkval = Comparable(None), Comparable(None)
+    # True while a left group has been fetched but not yet dealt with
+    # (cannot be decided by comparing key values, as None is a valid key)
+    lhanging = False
     try:
 
         # pick off initial row groups
         lkval, lrowgrp = next(lgit)
+        lhanging = True
         rkval, _ = next(rgit)
 
         while True:
@@ -646,20 +650,24 @@ def iterantijoin(left, right, lkey, rkey):
                 for row in lrowgrp:
                     yield tuple(row)
                 # advance left
+                lhanging = False
                 lkval, lrowgrp = next(lgit)
+                lhanging = True
             elif lkval > rkval:
                 # advance right
                 rkval, _ = next(rgit)
             else:
                 # advance both
+                lhanging = False
                 lkval, lrowgrp = next(lgit)
+                lhanging = True
                 rkval, _ = next(rgit)
 
     except StopIteration:
         pass
 
     # any left over?
-    if lkval > rkval:
+    if lhanging:
         # yield anything that got left hanging
         for row in lrowgrp:
             yield tuple(row)
